@@ -73,6 +73,7 @@ static bool do_write(binson_writer *w, const WOp &o, const Block &pl) {
 
 static std::vector<WOp> gen_arbitrary_ops(Src &s, bool big) {
     std::vector<WOp> ops;
+    size_t last_len = (size_t)-1;
     unsigned n = 1 + s.u8() % 24;
     for (unsigned i = 0; i < n && !s.dry(); i++) {
         WOp o;
@@ -95,9 +96,9 @@ static std::vector<WOp> gen_arbitrary_ops(Src &s, bool big) {
         case 4: o.k = ref::W_BOOL; o.b = s.flag(); break;
         case 5: case 6: o.k = ref::W_INT; o.i = gen_int(s); break;
         case 7: o.k = ref::W_DBL; o.d = gen_double_bits(s); break;
-        case 8: case 9: o.k = ref::W_STR; o.s = gen_payload(s, gen_len(s, big)); break;
+        case 8: case 9: o.k = ref::W_STR; o.s = gen_payload(s, rel_len(s, big, last_len)); break;
         case 10: o.k = ref::W_NAME; o.s = gen_name(s, s.u8(), false); break;
-        case 11: case 12: o.k = ref::W_BYTES; o.s = gen_payload(s, gen_len(s, big)); break;
+        case 11: case 12: o.k = ref::W_BYTES; o.s = gen_payload(s, rel_len(s, big, last_len)); break;
         case 13: o.k = ref::W_RAW; o.s = gen_payload(s, s.u8() % 12); break;
         case 14: o.k = ref::W_STR_C; o.s = gen_payload(s, gen_len(s, false)); for (auto &c : o.s) if (!c) c = 'z'; break;
         default: o.k = ref::W_NAME_C; o.s = gen_name(s, s.u8(), false); for (auto &c : o.s) if (!c) c = 'z'; break;
